@@ -189,7 +189,13 @@ let run_trace_block () =
       Printf.sprintf "fail@%d" (find 0)
     end in
   let (wf, _) = run_events s0 tr in
-  Printf.printf "crash=%s pl=%s final=%s\n" (verdict false) (verdict true) (dump_world wf)
+  let locate f = if f tr then "ok" else begin
+      let n = List.length tr in
+      let rec find i = if i > n then n else if f (firstn_l i tr) then find (i + 1) else i in
+      Printf.sprintf "fail@%d" (find 0) end in
+  let mono = locate (fun t -> all_ok_b h inflate s0 t) in
+  let c13 = locate (fun t -> c13_all_b h inflate s0 t) in
+  Printf.printf "crash=%s pl=%s mono=%s c13=%s final=%s\n" (verdict false) (verdict true) mono c13 (dump_world wf)
 
 let () =
   let extra = ref [("por", cmd_por); ("bio", cmd_bio true); ("fio", cmd_bio false); ("zsd", cmd_zsd)] in
